@@ -342,7 +342,21 @@ func (m *monC02) OnTransition(t *Transition) []Violation {
 	if !deltasEq(exp.m, d) {
 		bad("unexpected-balance-change/"+t.Op.Kind, "after %v balances moved {%s} but the op's due is {%s}", t.Op, fmtDeltas(d), fmtDeltas(exp.m))
 	}
-	// end state of terminal auctions: nothing in escrow (donations aside, handled by C01's excess rule)
+	// end state: once an auction is finished or cancelled nothing is left in its escrows (in scenarios
+	// with donations the donated coins may stay; C01's excess rule accounts for them)
+	if t.Scen.al == nil || len(t.Scen.al.Donate) == 0 {
+		for _, a := range t.Post.Auctions {
+			if a.Status != ref.StatusFinished && a.Status != ref.StatusCancelled {
+				continue
+			}
+			for role, x := range map[string][2]string{"sell": {a.SellAddr, a.SellDenom}, "pay": {a.PayAddr, a.PayDenom}, "vest": {a.VestAddr, a.PayDenom}} {
+				if bal := t.Post.BalOf(x[0], x[1]); bal.Sign() != 0 {
+					bad("stranded-in-escrow/"+role+"/"+ref.StatusName(a.Status), "auction %d is %s but %s%s is left in its %s escrow (after %v)", a.ID, ref.StatusName(a.Status), bal, x[1], role, t.Op)
+				}
+			}
+			m.st.Inc("terminal_auction_escrow_checks")
+		}
+	}
 	return vs
 }
 
